@@ -32,6 +32,46 @@ type config struct {
 	NoWitness   bool              `json:"no_witness"`
 	Shared      []string          `json:"shared"`
 	Solver      string            `json:"solver"` // primary solver: z3 (default) or cvc5
+	// Replace maps a module path to a directory under /verif that replaces it (go.mod replace
+	// in a private -modfile), for the encoder's load and for the native replay build alike:
+	// a pure-Go model of a cgo dependency that has no Go IR (blst).
+	Replace map[string]string `json:"replace"`
+}
+
+// modReplace is cfg.Replace with absolute directories.
+var modReplace map[string]string
+
+func setModReplace(cfg config) {
+	modReplace = map[string]string{}
+	for k, v := range cfg.Replace {
+		if !filepath.IsAbs(v) {
+			v = filepath.Join(*flagVerif, v)
+		}
+		modReplace[k] = v
+	}
+}
+
+// privateModfile writes a copy of the repository's go.mod/go.sum with the configured replace
+// directives into dir and returns the go.mod path ("" if the repository has no go.mod).
+func privateModfile(repo, dir string) string {
+	gm, err := os.ReadFile(filepath.Join(repo, "go.mod"))
+	if err != nil {
+		return ""
+	}
+	var keys []string
+	for k := range modReplace {
+		keys = append(keys, k)
+	}
+	sort.Strings(keys)
+	for _, k := range keys {
+		gm = append(gm, []byte(fmt.Sprintf("\nreplace %s => %s\n", k, modReplace[k]))...)
+	}
+	mf := filepath.Join(dir, "go.mod")
+	os.WriteFile(mf, gm, 0o644)
+	if gs, err := os.ReadFile(filepath.Join(repo, "go.sum")); err == nil {
+		os.WriteFile(filepath.Join(dir, "go.sum"), gs, 0o644)
+	}
+	return mf
 }
 
 type knownFinding struct {
@@ -130,6 +170,7 @@ func realMain() int {
 	if cfg.Level == "" {
 		cfg.Level = "model_checking"
 	}
+	setModReplace(cfg)
 	tags := "math_big_pure_go"
 	if cfg.Tags != "" {
 		tags += "," + cfg.Tags
